@@ -553,8 +553,8 @@ class Interp:
                 return UInt(v)
         return v
 
-    def call_value(self, f, args):
-        """call a closure / fn reference / python function value"""
+    def call_value(self, f, args, hint=None):
+        """call a closure / fn reference / python function value (hint: expected result type, if known)"""
         f = deref(f)
         if isinstance(f, Closure):
             V.ENG.tick(2)
@@ -566,7 +566,7 @@ class Interp:
                 if not self.match_pat(p, a, env, f.ctx, irrefutable=True):
                     raise Inconclusive('closure parameter pattern mismatch')
             try:
-                return self.eval(f.body, env, f.ctx)
+                return self.eval(f.body, env, f.ctx, hint)
             except ReturnEx as ex:
                 return ex.v
         if isinstance(f, PyFn):
@@ -1459,6 +1459,10 @@ class Interp:
 
     def e_try(self, e, env, ctx, hint):
         inner_hint = None
+        if hint is not None:
+            # `let x: T = f()?` : f's result type is Result<T, _> (or Option<T>; only the first argument is read)
+            inner_hint = {'_': 'Type::Path', 'path': {'segments': [{'ident': {'sym': 'Result'}, 'arguments': {
+                '_': 'PathArguments::AngleBracketed', 'args': [{'_': 'GenericArgument::Type', '0': hint}]}}]}}
         v = deref(self.eval(e['expr'], env, ctx, inner_hint))
         if isinstance(v, Enum):
             if v.ty == 'Result':
